@@ -36,7 +36,7 @@ def _dest():
     return sn.test_key('ed', 7).public_key_hash()
 
 
-def run_history(c0, p0, events, curve='ed'):
+def run_history(c0, p0, events, curve='ed', rejected=None):
     """returns (tokens, violations) — tokens mirror Driver/C25.lean's answer; violations come from the oracle"""
     from harness import stubnode as sn
     from pytezos.rpc.node import RpcError
@@ -50,6 +50,11 @@ def run_history(c0, p0, events, curve='ed'):
     node.add_pending(other, 2)                    # somebody else's operations must not count
     if p0:
         node.add_pending(pkh, p0, where='unprocessed' if p0 % 2 else 'applied')
+    if rejected:
+        # operations of this very account that the mempool has refused (fees too low …): noise, they take no counter
+        section, shape, n = rejected
+        node.add_rejected(pkh, n, section, shape)
+        node.add_rejected(other, 1, 'branch_delayed', 'pair')
     cli = sn.make_client(node, key)
     dest = _dest()
     tmpl = cur = None
@@ -152,11 +157,11 @@ def classify(v):
     return None
 
 
-def shrink(c0, p0, events, key):
+def shrink(c0, p0, events, key, rej=None):
     """greedy: drop events while a violation of the same class remains; then simplify the initial state"""
     def bad(c, p, evs):
         try:
-            _, vs = run_history(c, p, evs)
+            _, vs = run_history(c, p, evs, 'ed', rej)
         except Exception:
             return False
         return any(classify(v) == key for v in vs)   # key None: any violation outside the recorded regions
@@ -240,7 +245,8 @@ def run(ctx):
     lines = [f'{c} {p} ' + ' '.join(plain_events(evs)) for c, p, evs in cases]
     model = ctx.model(lines)
     shrunk = {}
-    jobs = [(c0, p0, evs, ('ed', 'sp', 'p2')[idx % 3] if idx % 7 == 0 else 'ed') for idx, (c0, p0, evs) in enumerate(cases)]
+    REJ = [None, ('refused', 'object', 1), None, ('branch_delayed', 'pair', 2), None, ('outdated', 'object', 2), ('branch_refused', 'object', 1), None]
+    jobs = [(c0, p0, evs, ('ed', 'sp', 'p2')[idx % 3] if idx % 7 == 0 else 'ed', REJ[idx % len(REJ)]) for idx, (c0, p0, evs) in enumerate(cases)]
     if ctx.tier == 'thorough' and len(jobs) > 20000:
         import multiprocessing as mp
         with mp.get_context('fork').Pool(min(16, os.cpu_count() or 1)) as pool:   # results keep the case order: seed-deterministic
@@ -251,6 +257,7 @@ def run(ctx):
         n_sent = sum(1 for t in toks if t.startswith('sent:'))
         ctx.case({'c': c0, 'p': p0, 'events': ' '.join(evs)}, nontrivial=n_sent > 0)
         ctx.count('length', min(len(evs), 40) // 4 * 4)
+        ctx.count('rejected_own_operations_in_mempool', '-' if REJ[idx % len(REJ)] is None else '/'.join(map(str, REJ[idx % len(REJ)])))
         ctx.count('payloads_posted', min(n_sent, 5))
         for e in evs:
             if e in KW_AUTOFILL:
@@ -265,13 +272,22 @@ def run(ctx):
                 key = f"unlisted:{how}:earlier-fills-in-context={min(earlier, 1)}:own-pending={min(pend, 1)}"
             shrunk[key] = shrunk.get(key, 0) + 1
             if shrunk[key] <= 2:
-                sc, sp, se = shrink(c0, p0, evs[:v['event_index'] + 1], key if known_class else None)
+                sc, sp, se = shrink(c0, p0, evs[:v['event_index'] + 1], key if known_class else None, REJ[idx % len(REJ)])
             else:
                 sc, sp, se = c0, p0, evs[:v['event_index'] + 1]
             if (sc, sp, se) != (c0, p0, evs[:v['event_index'] + 1]):
-                _, vs2 = run_history(sc, sp, se)
+                _, vs2 = run_history(sc, sp, se, 'ed', REJ[idx % len(REJ)])
                 v = next(x for x in vs2 if classify(x) == (key if known_class else None))
-            ctx.violation(key, f"node counter {sc}, {sp} own contents pending, history [{' '.join(se)}]: injected counters {v['sent']} "
+            rj = REJ[idx % len(REJ)]
+            if rj is not None and not known_class:
+                # does the failure need the rejected entries?
+                try:
+                    _, vs3 = run_history(sc, sp, se)
+                except Exception:
+                    vs3 = []
+                if not any(classify(x) is None for x in vs3):
+                    key += f':with-{rj[2]}-own-operation(s)-listed-under-{rj[0]}-as-{rj[1]}'
+            ctx.violation(key, f"node counter {sc}, {sp} own contents pending" + (f", {rj[2]} own operation(s) rejected by the mempool ({rj[0]}, {rj[1]} shape)" if rj else '') + f", history [{' '.join(se)}]: injected counters {v['sent']} "
                                f"expected {v['expected']} (node counter {v['node_counter']} + pending {v['node_pending']} at injection)",
                           {'counter': sc, 'pending': sp, 'events': se, 'sent': v['sent'], 'expected': v['expected']})
         if model is not None:
